@@ -9,8 +9,12 @@ def run(prog, rep, tier):
                   "Y1: flex's DFA analysis finds no matchable default (ECHO to stdout) rule; K3: main returns only constants in {0,1,2} and both "
                   "function-level handlers return 2; K4: both handlers of the per-input try record the error through the overload that sets `errors`; K4b: that overload interpreted from source for every "
                   "(-s given?, verbosity, flag before): it sets the flag exactly when verbosity >= 0, independent of -s, and returns std::cerr exactly when -s is absent.")
-    rep.not_decided = ("header text, row-major iteration order over files and --a arguments, that -c prints the number of results, "
-                       "-H/-h, -a vs --a equivalence (run-time text/values).")
+    rep.clause += (" K8: main() interpreted from source on ~1400 abstract command lines (all combinations of -c -q -s -H -h, 0-3 files openable or not, "
+                   "0-2 -a/--a arguments yielding 0-2 values, five execution plans incl. errors before and after results; getopt, the libzwerg C API, "
+                   "the argument parsers and the value dumper summarised): exit status, stdout (results in order, `---`, headers, counts, row-major "
+                   "order, -H/-h, -q silence) and the driver's diagnostics (-s) equal the documented behaviour.")
+    rep.not_decided = ("-f FILE and reading the query from stdin, --help/--version texts, what -c prints for an input whose execution fails half-way "
+                       "(undocumented), how values are rendered (C20), -a vs --a equivalence beyond K7.")
     apply(rep, "K1", "-q: no stdout write reachable with verbosity == -1", r_cli.k1(prog), 4)
     apply(rep, "K2", "library never writes to stdout", r_cli.k2(prog), 1)
     control(rep, "K2", r_cli.k2, ["verif_control_writes_cout", "verif_control_printf"])
@@ -21,4 +25,5 @@ def run(prog, rep, tier):
     apply(rep, "K6", "no execution when there is no combination of argument values", r_cli.k6(prog), 1)
     apply(rep, "K5", "status flags accumulate over all inputs", r_cli.k5(prog), 2)
     apply(rep, "K7", "`-a X` passes X itself as one string value (parse_arg_literal interpreted with the libzwerg API modelled)", r_cli.k7(prog), 1)
+    apply(rep, "K8", "exit status, stdout and the driver's diagnostics for ~1400 abstract command lines (main() interpreted end to end against the documented behaviour)", r_cli.k8(prog, tier), 3)
     maybe_mutants("C19", rep, tier)
